@@ -1124,6 +1124,8 @@ class Ctx:
                 return oa.d.present.get(ka, False)
             if isinstance(oa, MList):
                 return b_or(*[b_and(self.in_len(oa, i), self.eq(oa.slots[i], ka)) for i in range(oa.hi)])
+            if isinstance(oa, MObj):
+                return self.truth(self.call(self.getattr1(oa, '__contains__'), [ka], {}))     # user-defined __contains__
             return ka in oa
         return fold_b(o, lambda oa: fold_b(k, lambda ka: one(oa, ka)))
 
@@ -1134,6 +1136,15 @@ class Ctx:
             if isinstance(va, MSet) and isinstance(vb, MSet):
                 keys = set(va.bits) | set(vb.bits)
                 return b_and(*[b_iff(va.get(k), vb.get(k)) for k in keys])
+            if isinstance(va, MDict) and isinstance(vb, MDict):
+                keys = list(va.order) + [k for k in vb.order if k not in va.present]
+                return b_and(*[b_and(b_iff(va.present.get(k, False), vb.present.get(k, False)),
+                                     b_or(b_not(va.present.get(k, False)), self.eq(va.vals.get(k), vb.vals.get(k)))) for k in keys])
+            if isinstance(va, MObj) and not isinstance(vb, HEAP) or isinstance(vb, MObj) and not isinstance(va, HEAP):
+                return False
+            if isinstance(va, MObj) and isinstance(vb, MObj):
+                # user-defined __eq__ is dispatched by compare(); identity is the default
+                return va is vb
             if isinstance(va, HEAP) or isinstance(vb, HEAP):
                 return va is vb
             return bool(va == vb)
@@ -1294,7 +1305,33 @@ class Ctx:
             return mk_bool(b_not(self.truth(v)))
         if isinstance(e.op, ast.USub):
             return fold(v, lambda x: -x)
+        if isinstance(e.op, ast.Invert):
+            def inv(x):
+                if isinstance(x, MObj):
+                    return self.call(self.getattr1(x, '__invert__'), [], {})
+                if isinstance(x, (SBool, bool)):
+                    raise Unsupported('~ on a bool')
+                return ~x
+            return self.call_each(v, inv)
         raise Unsupported('unary')
+
+    def call_each(self, v, f):
+        """apply f (which may run code and raise) to every alternative of v under its guard; merge the results"""
+        alts = alts_of(v)
+        if len(alts) == 1:
+            return f(alts[0][1])
+        saved = self.g
+        res, lost = UNDEF, False
+        for (ga, va) in reversed(alts):
+            self.g = b_and(saved, ga)
+            if self.g is False:
+                continue
+            before = self.g
+            r = f(va)
+            lost = b_or(lost, b_and(before, b_not(self.g)))
+            res = merge(ga, r, res)
+        self.g = b_and(saved, b_not(lost))
+        return None if res is UNDEF else res
 
     def ex_BoolOp(self, e):
         saved = self.g
@@ -1336,6 +1373,10 @@ class Ctx:
             return fold_b(a, lambda va: fold_b(b, lambda vb: va is vb))
         if isinstance(op, ast.IsNot):
             return fold_b(a, lambda va: fold_b(b, lambda vb: va is not vb))
+        if isinstance(op, (ast.Eq, ast.NotEq)):
+            d = self.user_eq(a, b, isinstance(op, ast.NotEq))
+            if d is not None:
+                return d
         if isinstance(op, ast.Eq):
             return self.eq(a, b)
         if isinstance(op, ast.NotEq):
@@ -1349,6 +1390,43 @@ class Ctx:
                  ast.Gt: lambda: x > y, ast.GtE: lambda: x >= y}[type(op)]()
             return bool(r)
         return fold_b(a, lambda va: fold_b(b, lambda vb: one(va, vb)))
+
+    def user_eq(self, a, b, negate):
+        """== / != where the left operand is an instance of a repository class defining __eq__ / __ne__"""
+        def has(x, name):
+            if not isinstance(x, MObj):
+                return None
+            for c in x.cls.__mro__:
+                if name in c.__dict__ and isinstance(c.__dict__[name], types.FunctionType):
+                    return c.__dict__[name]
+            return None
+        alts = alts_of(a)
+        if not any(has(x, '__eq__') or has(x, '__ne__') for _, x in alts):
+            return None
+
+        def one(x):
+            fn = has(x, '__ne__') if negate else None
+            if fn is not None:
+                return self.truth(self.call(fn, [x, b], {}))
+            fn = has(x, '__eq__')
+            if fn is not None:
+                r = self.truth(self.call(fn, [x, b], {}))
+                return b_not(r) if negate else r
+            r = self.eq(x, b)
+            return b_not(r) if negate else r
+        res = False
+        saved = self.g
+        lost = False
+        for (ga, x) in alts:
+            self.g = b_and(saved, ga)
+            if self.g is False:
+                continue
+            before = self.g
+            r = one(x)
+            lost = b_or(lost, b_and(before, b_not(self.g)))
+            res = b_or(res, b_and(ga, r))
+        self.g = b_and(saved, b_not(lost))
+        return res
 
     def ex_BinOp(self, e):
         return self.binop(e.op, self.ev(e.left), self.ev(e.right))
@@ -1573,7 +1651,20 @@ class Ctx:
                     new = c.__dict__['__new__']
                     new = new.__func__ if isinstance(new, staticmethod) else new
                     if isinstance(new, types.FunctionType):
-                        return self.call(new, [fn] + list(args), kwargs)
+                        made = self.call(new, [fn] + list(args), kwargs)
+                        # Python then runs type(obj).__init__ on the result if it is an instance of the class called
+                        for (ga, oa) in alts_of(made):
+                            if isinstance(oa, MObj) and issubclass(oa.cls, fn):
+                                for c2 in oa.cls.__mro__:
+                                    if '__init__' in c2.__dict__:
+                                        if isinstance(c2.__dict__['__init__'], types.FunctionType):
+                                            saved = self.g
+                                            self.g = b_and(saved, ga)
+                                            if self.g is not False:
+                                                self.call(c2.__dict__['__init__'], [oa] + list(args), kwargs)
+                                            self.g = b_and(saved, b_or(b_not(ga), self.g))
+                                        break
+                        return made
                     break
             obj = MObj(fn)
             if issubclass(fn, set):
